@@ -766,6 +766,30 @@ def _simple_sign(p):
     return sign
 
 
+POSITIVE_INT_SYMBOLS = {"nx", "ny", "nz"}     # grid sizes: integers >= 1
+
+
+def _shift_sign(p):
+    """sign of a polynomial in symbols when the grid-size symbols are integers >= 1: write n = 1 + m with m >= 0; if every
+    coefficient then has one sign and some monomial is free of the m's (hence strictly positive), that is the sign"""
+    if any(a[0] != "s" for m, _ in p.t.items() for a, _ in m):
+        return None
+    sub = {("s", n): Poly.sym(n) + Poly.const(1) for n in POSITIVE_INT_SYMBOLS if ("s", n) in p.atoms()}
+    if not sub:
+        return None
+    q = as_poly(p.subs(sub))
+    sign, strict = None, False
+    for m, c in q.t.items():
+        sg = 1 if c > 0 else -1
+        if sign is None:
+            sign = sg
+        elif sign != sg:
+            return None
+        if not any(a[1] in POSITIVE_INT_SYMBOLS for a, _ in m):
+            strict = True
+    return sign if strict else None
+
+
 class Cond:
     """p OP 0 with p a primitive polynomial whose leading coefficient is positive.
     op in {'>', '>=', '<', '<='}; the negation of '>' is '<=' etc."""
@@ -777,7 +801,7 @@ class Cond:
         p = as_rat(p)
         if not p.den.is_const():
             # sign of a quotient: the denominator must have a known sign (symbols are positive)
-            sd = _simple_sign(p.den)
+            sd = _simple_sign(p.den) or _shift_sign(p.den)
             if sd is None:
                 raise AlgebraError("condition with a denominator of unknown sign: %s" % p)
             p = Rat(p.num if sd > 0 else -p.num)
